@@ -119,6 +119,12 @@ def gen_secret(r, cls, slen=4, exact_len=None, avoid=()):
     """A secret value of the given format class that belongs to no other class."""
     for _ in range(200):
         if cls == "text":
+            if exact_len is None and r.random() < 0.08:
+                # very short values, also ones that begin like a hash marker: "$x", "$1", "$6"
+                v = r.choice(["$x", "$1", "$6", "$9", "$Z", "x$", "$1x", "Zq", "$$k"])
+                if v in avoid:
+                    continue
+                return v
             n = exact_len or r.randint(6, 14)
             v = "".join(r.choice(TEXT_CHARS) for _ in range(n - 2)) + r.choice("GHJKMNPQRSTVWXYZ") + r.choice("ghjkmnpqrstvwxyz")
             v = r.choice(string.ascii_letters) + v[1:]
